@@ -926,6 +926,7 @@ func gen(g *zv.Gen) {
 	s := BuildSeeds(r.Fork())
 
 	genCores(e, g)
+	genECPriv(e, r.Fork(), g.N(3000, 60000))
 
 	// ---- predicted-defect corpus (kept first so a regression is found at once) ----
 	// D3: Ed25519 / X25519 SPKI lengths through the key parser and the signature dispatch, both modes
